@@ -43,6 +43,16 @@ Theorem C05_records_whole_and_terminated : forall c t0 ops, clean c ops -> let w
 Proof. exact (fun c t0 ops H => T_records_whole src_shape C05_source_shape c t0 ops H). Qed.
 Print Assumptions C05_records_whole_and_terminated.
 
+(* a message with a raw text and, optionally, a formatted text (set by a formatter; the EMPTY string counts as set): the record
+   that enters the history is the SHOWN text followed by one newline - also when the shown text itself ends in a newline, is a
+   lone newline or is empty - and the extended history is again one all the theorems here speak about *)
+Theorem C05_record_is_the_shown_text : forall c t0 ops ty raw fmt, clean c ops -> let w := run src_shape c t0 ops in
+  hist (run src_shape c t0 (ops ++ [WriteMsg ty raw fmt])) =
+    hist w ++ [{| rbytes := shown_text raw fmt ++ [10%N]; rid := length (hist w); rday := day_of c (now w) |}]
+  /\ clean c (ops ++ [WriteMsg ty raw fmt]).
+Proof. exact (fun c t0 ops ty raw fmt H => conj (T_shown_text_written src_shape c t0 ops ty raw fmt C05_source_shape H) (clean_write_msg c ops ty raw fmt H)). Qed.
+Print Assumptions C05_record_is_the_shown_text.
+
 (* rotation order can be read off the names: sorting the present files by (date, index, name) leaves them as rotated *)
 Theorem C05_rotation_order_is_name_order : forall c t0 ops, clean c ops -> let w := run src_shape c t0 ops in isort std_shape c (rot w) = rot w.
 Proof. exact (fun c t0 ops H => T_rotation_order_is_name_order src_shape C05_source_shape c t0 ops H). Qed.
@@ -60,4 +70,14 @@ Example C05_nonvacuous :
    [Write TInfo [97%N]; Write TInfo [98%N; 98%N]; Advance 86400000; Write TInfo [99%N]; Restart; Write TInfo [100%N; 100%N; 100%N];
    PutForeign [120%N] [1%N]; Write TCritical [101%N]; Write TInfo [102%N]] in
   (length (hist w), length (gone w), length (rot w), length (act w), prop_c05_b std_shape {| cL := 4; cN := 3; startup := true; daily := true; compress := true; cgran := G1s; cbase := [97%N]; csuffix := [108%N]; ctz := 0 |} (snap_of w)) = (6%nat, 2%nat, 2%nat, 2%nat, true).
+Proof. vm_compute. reflexivity. Qed.
+
+(* non-vacuity of the shown-text theorem: payloads that end in a newline, a lone newline, an empty formatted text over a
+   non-empty raw text - every record is the shown text plus ONE more newline, byte for byte (L = 3 rotates between them) *)
+Example C05_newline_payloads :
+  let c := {| cL := 3; cN := 0; startup := false; daily := false; compress := false; cgran := G1ms; cbase := [97%N]; csuffix := []; ctz := 0 |} in
+  let w := run src_shape c 0 [WriteMsg TInfo [120%N; 10%N] None; WriteMsg TInfo [10%N] None; WriteMsg TFatal [114%N; 97%N; 119%N] (Some []);
+                              WriteMsg TInfo [114%N] (Some [102%N; 10%N])] in
+  (map rbytes (hist w), map (fun f => bytes_of (fcont f)) (rot w), bytes_of (act w)) =
+  ([[120%N; 10%N; 10%N]; [10%N; 10%N]; [10%N]; [102%N; 10%N; 10%N]], [[120%N; 10%N; 10%N]; [10%N; 10%N; 10%N]], [102%N; 10%N; 10%N]).
 Proof. vm_compute. reflexivity. Qed.
